@@ -36,7 +36,10 @@ func c01Prelude() []*rt.Node {
 func c01Points() []PointSpec {
 	return []PointSpec{
 		{Meas: "m"},
-		{Meas: "m", Tags: map[string]string{"t1": "tv"}, Fields: map[string]any{"message": "hello 123", "fi": int64(7), "ff": 1.5, "fs": "str", "fb": true, "fx": "caf\xe9"}},
+		{Meas: "m", Tags: map[string]string{"t1": "tv"}, Fields: map[string]any{"message": "hello 123", "fi": int64(7), "ff": 1.5, "fs": "str", "fb": true, "fx": "caf\xe9",
+			// values of Go types a host may hand over: typed and untyped collections, small numeric types
+			"fsl": []string{"a", "b"}, "fms": map[string]string{"k": "v"}, "fby": []byte("ab"), "far": [2]int{1, 2}, "fl": []any{int64(1), "a"}, "fm": map[string]any{"k": int64(1)},
+			"fu8": uint8(200), "ff32": float32(1.5), "fi32": int32(-5), "fu64": uint64(1 << 63)}},
 		{Meas: "", Tags: map[string]string{"t1": ""}, Fields: map[string]any{"fn": nil, "fi": int64(-1), "ff": 0.0, "fs": "", "fb": false, "fj": "[1,2]", "message": "<a><b>1</b></a>", "fx": "\xe6\x97"}},
 		{Meas: "m", Tags: map[string]string{"m": "tagm"}, Fields: map[string]any{"message": nil, "fi": nil, "fs": nil, "s": "field-s", "l": "x", "ff": math.Inf(1)}},
 	}
@@ -59,7 +62,7 @@ func c01Atoms() []nodeFn {
 	add(func() *rt.Node { return S("") })
 	add(func() *rt.Node { return rt.List(I(1), S("a"), rt.List(I(2))) })
 	add(func() *rt.Node { return rt.Map(S("k"), I(1)) })
-	for _, v := range []string{"i", "z", "big", "small", "f", "s", "u", "l", "m", "n", "b", "fi", "ff", "fs", "fb", "fn", "t1", "nosuch", "message", "_", "bad", "cut", "fx"} {
+	for _, v := range []string{"i", "z", "big", "small", "f", "s", "u", "l", "m", "n", "b", "fi", "ff", "fs", "fb", "fn", "t1", "nosuch", "message", "_", "bad", "cut", "fx", "fsl", "fl", "fm", "fu64"} {
 		v := v
 		add(func() *rt.Node { return Id(v) })
 	}
@@ -124,7 +127,7 @@ func c01Exprs(thorough bool, yield func(s nodeFn, heavy bool)) {
 		func() *rt.Node { return Id("l") }, func() *rt.Node { return Id("m") }, func() *rt.Node { return Id("nosuch") },
 		func() *rt.Node { return rt.Index("l", I(0)) }, func() *rt.Node { return rt.Call("len", Id("s")) },
 	}
-	objs := []string{"l", "m", "s", "i", "n", "fs", "fi", "t1", "nosuch", "message", "_", "fn", "cut", "fx"}
+	objs := []string{"l", "m", "s", "i", "n", "fs", "fi", "t1", "nosuch", "message", "_", "fn", "cut", "fx", "fsl", "fm"}
 	for _, o := range objs {
 		for _, k1 := range keys {
 			o, k1 := o, k1
@@ -156,7 +159,7 @@ func c01Exprs(thorough bool, yield func(s nodeFn, heavy bool)) {
 		func() *rt.Node { return rt.Nil() }, func() *rt.Node { return rt.Bool(true) },
 		func() *rt.Node { return rt.Call("len", Id("s")) }, func() *rt.Node { return rt.Slice(Id("l"), I(0), I(1), nil, false) },
 		func() *rt.Node { return rt.Call("exit") },
-		func() *rt.Node { return Id("cut") }, func() *rt.Node { return Id("fx") },
+		func() *rt.Node { return Id("cut") }, func() *rt.Node { return Id("fx") }, func() *rt.Node { return Id("fsl") }, func() *rt.Node { return Id("fl") },
 	}
 	bnds := []nodeFn{nil,
 		func() *rt.Node { return I(0) }, func() *rt.Node { return I(1) }, func() *rt.Node { return I(-1) },
@@ -234,7 +237,7 @@ func c01ArgAlphabet() []nodeFn {
 	I, S, Id := rt.Int, rt.Str, rt.Id
 	var a []nodeFn
 	add := func(f nodeFn) { a = append(a, f) }
-	for _, v := range []string{"i", "f", "s", "u", "l", "m", "n", "b", "fi", "ff", "fs", "fb", "fn", "fj", "t1", "nosuch", "_", "message", "cut", "fx"} {
+	for _, v := range []string{"i", "f", "s", "u", "l", "m", "n", "b", "fi", "ff", "fs", "fb", "fn", "fj", "t1", "nosuch", "_", "message", "cut", "fx", "fsl", "fm"} {
 		v := v
 		add(func() *rt.Node { return Id(v) })
 	}
@@ -393,7 +396,7 @@ func c01Run(w *run.Worker) {
 	// (iii): every builtin x every argument shape its checker accepts
 	names := c01BuiltinNames()
 	alpha := c01ArgAlphabet()
-	small := []nodeFn{alpha[0], alpha[3], alpha[10], alpha[15], alpha[22], alpha[25], alpha[46], alpha[49], alpha[52], alpha[55]}
+	small := []nodeFn{alpha[0], alpha[3], alpha[10], alpha[15], alpha[24], alpha[27], alpha[48], alpha[51], alpha[54], alpha[57]}
 	for _, name := range names {
 		var rec func(args []nodeFn, n int, al []nodeFn)
 		rec = func(args []nodeFn, n int, al []nodeFn) {
@@ -409,6 +412,19 @@ func c01Run(w *run.Worker) {
 				accepted := c01Offer(w, call)
 				if accepted {
 					w.Note("accepted_builtin_call_shapes", 1)
+				} else if n <= 1 {
+					// a shape its checker rejects as a statement: if some other position lets it through, it runs there
+					for _, wrap := range []func(c *rt.Node) *rt.Node{
+						func(c *rt.Node) *rt.Node { return rt.Assign("=", rt.Id("x"), rt.Map(rt.Str("k"), c)) },
+						func(c *rt.Node) *rt.Node { return rt.Assign("=", rt.Id("x"), rt.List(c, rt.Int(1))) },
+						func(c *rt.Node) *rt.Node { return rt.Assign("=", rt.Id("x"), rt.Map(rt.Str("k"), rt.List(rt.Map(rt.Str("j"), c), rt.Int(1)))) },
+						func(c *rt.Node) *rt.Node { return rt.Call("p", rt.Index("l", c)) },
+						func(c *rt.Node) *rt.Node { return rt.For(nil, c, nil, rt.Block(rt.Break())) },
+					} {
+						if c01RunWrapped(w, wrap(rt.Clone(call))) {
+							w.Note("rejected_shapes_accepted_in_another_position(C08 decides)", 1)
+						}
+					}
 				}
 				return
 			}
@@ -486,6 +502,17 @@ func c01Sequences(w *run.Worker) {
 	}
 }
 
+// c01RunWrapped loads a statement without counting a rejection; if it loads it is run like any accepted program.
+func c01RunWrapped(w *run.Worker, stmt *rt.Node) bool {
+	prog := append(c01Prelude(), stmt)
+	src, _ := rt.PrintProg(prog, nil)
+	if _, err := drv.Load1("s.p", src); err != nil {
+		w.Eval()
+		return false
+	}
+	return c01RunSrc(w, src, true)
+}
+
 // c01Offer offers a call to the real checker; if accepted, runs it as a
 // statement and as a probed value on all points.
 func c01Offer(w *run.Worker, call *rt.Node) bool {
@@ -525,7 +552,7 @@ func init() {
 	run.Register(&run.Check{
 		ID:    "C01",
 		Level: "model_checking",
-		Rule: "prelude binding a variable of every dynamic type, then S in 25 syntactic roles, for S over: 34 atoms (literals incl. extreme ints, variables incl. strings that are not valid UTF-8, point keys of each stored type incl. an invalid-UTF-8 string, a tag, an absent name), " +
+		Rule: "prelude binding a variable of every dynamic type, then S in 25 syntactic roles, for S over: 38 atoms (literals incl. extreme ints, variables incl. strings that are not valid UTF-8, point keys of each stored type incl. an invalid-UTF-8 string and fields holding typed/untyped Go slices, maps, arrays and small numeric types, a tag, an absent name), " +
 			"3 unary x atoms, 14 binary x atoms^2 (thorough: all depth-2 trees over 10 type representatives), list/map literals, index chains of depth <=3 over 12 objects x 14 keys, object-less .[i], " +
 			"17 slice objects x 14^3 bounds, attribute expressions; plus every builtin x every argument list of length 0..3 over a 55-candidate alphabet (length 4 over 10) that the real checker accepts; plus every pair (point-mutating builtin call; reader) over 11 keys: 11x10 renames, casts, set_tag, add_key with scalar/list/nil/void values, drop, delete-on-set-measurement, default_time, grok x 15 readers (len, slice, arithmetic, comparison, for-in, index, condition, string builtins, load_json, strfmt, cast, datetime, set_tag, rename, compound assignment); each on 4 input points; " +
 			"oracle: Run returns, no panic, error (if any) carries a position chain whose first entry names the script; distinct = (program, point, outcome class)",
